@@ -113,11 +113,17 @@ Section Basic.
       exact (Hstep _ d x y (fun x0 H0 => in_skipn _ _ _ H0) Hs (Jpost d Hd)).
   Qed.
 
+  Lemma lit_find_scalar ls v w : lit_find ls v = Ok w -> scalar_basic w = true.
+  Proof.
+    unfold lit_find. destruct (find (exact_eq v) ls) as [l|] eqn:Ef; intros H; [|discriminate H]. inversion H; subst w.
+    apply find_some in Ef. destruct Ef as [_ He]. destruct v, l; try discriminate He; reflexivity.
+  Qed.
+
   Theorem ref_enc_basic : forall v, basic_ok v.
   Proof.
     induction v as [ | b | z | f | s | m b | l IHl | l IHl | fr l IHl | kvs IHk | c fs IHf | e m | k w | c l IHl | tg ]
       using pv_rect'; unfold basic_ok.
-    all: intros t; induction t as [ | | | | | | m' | k' | e' | t' IHt | fr' t' IHt | t' IHt | ts | pre mid IHmid post | kt IHkt vt IHvt | t' IHt | c' | c' | c' | t' IHt | kt IHkt vt IHvt | bx t' IHt ];
+    all: intros t; induction t as [ | | | | | | m' | k' | e' | t' IHt | fr' t' IHt | t' IHt | ts | pre mid IHmid post | kt IHkt vt IHvt | t' IHt | c' | c' | c' | t' IHt | kt IHkt vt IHvt | bx t' IHt | ls ];
       intros w0 HC HJ HE; try (solve [apply (basic_tupleu _ _ _ _ _ IHl HC HJ HE)]);
       rewrite conf_unfold in HC; try discriminate HC; try discriminate HJ;
       rewrite ref_enc_unfold in HE; try (inversion HE; reflexivity).
@@ -128,6 +134,8 @@ Section Basic.
                      destruct (mapM _ _) as [r|] eqn:Em; [|discriminate HE]; inversion HE; cbn [basic];
                      refine (forallb_mapM_res _ _ _ _ _ Em); intros x y Hx Hy;
                      rewrite forallb_forall in HC; apply (Forall_In _ _ IHl x Hx t' y (HC x Hx) HJ Hy) ].
+    (* literals *)
+    all: try solve [ apply scalar_is_basic; apply (lit_find_scalar _ _ _ HE) ].
     (* dict / Mapping *)
     all: try solve [
       apply andb_prop in HC; destruct HC as [_ HC]; cbn [jsonable] in HJ; apply andb_prop in HJ; destruct HJ as [Jk Jv];
